@@ -8,7 +8,7 @@ import logging
 import re
 import time
 
-from croniter import croniter
+from croniter import CroniterBadDateError, croniter
 
 from homeassistant.core import Context
 from homeassistant.helpers import sun
@@ -806,18 +806,29 @@ class TrigTime:
                 #
                 cron_iter = croniter(cron_match.group("cron_expr"), now, dt.datetime)
                 delta = None
-                while delta is None or delta.total_seconds() <= 0:
-                    val = cron_iter.get_next()
-                    delta = dt_util.as_local(val).astimezone(dt_util.UTC) - dt_util.as_local(now).astimezone(
-                        dt_util.UTC
-                    )
+                try:
+                    while delta is None or delta.total_seconds() <= 0:
+                        val = cron_iter.get_next()
+                        delta = dt_util.as_local(val).astimezone(dt_util.UTC) - dt_util.as_local(
+                            now
+                        ).astimezone(dt_util.UTC)
+                except CroniterBadDateError:
+                    # a day that never occurs (e.g. 30 2): this specification denotes no instant,
+                    # the other specifications of the trigger still count
+                    _LOGGER.error("cron expression never matches: %s", cron_match.group("cron_expr"))
+                    continue
 
                 if next_time is None or val < next_time:
                     next_time = val
                     next_time_adj = now + delta
 
             elif len(match1) == 3:
-                this_t, _ = await cls.parse_date_time(match1[1].strip(), 0, now, startup_time)
+                try:
+                    this_t, _ = await cls.parse_date_time(match1[1].strip(), 0, now, startup_time)
+                except ValueError as exc:
+                    # e.g. 2/29 in a common year: no such instant this year; the other specifications still count
+                    _LOGGER.error("once(%s): %s", match1[1].strip(), exc)
+                    continue
                 day_offset = (now - this_t).days + 1
                 if day_offset != 0 and this_t != startup_time:
                     #
